@@ -190,7 +190,9 @@ def run(prog, script=None, envs=None, max_ticks=8, quantum=None, workdir=None, k
     REC.prog = prog
     REC.quantum = Fraction(quantum)
     envs = envs or {}
-    sk = skedding.Skedder(name="vf", period=float(Fraction(prog["tick"]) * quantum), real=False, filepath=path)
+    # prog["t0"]: start stamp of the run in ticks (default 0); only the harness knows it
+    t0 = Fraction(prog.get("t0", 0)) * Fraction(prog["tick"]) * Fraction(quantum)
+    sk = skedding.Skedder(name="vf", period=float(Fraction(prog["tick"]) * quantum), stamp=float(t0), real=False, filepath=path)
     res = {"events": REC.events, "error": None, "built": False, "script": text}
     try:
         res["built"] = bool(sk.build())
@@ -228,7 +230,9 @@ def run(prog, script=None, envs=None, max_ticks=8, quantum=None, workdir=None, k
                 REC.events.append({"ev": "Interrupt"})
                 raise KeyboardInterrupt()
         orig(self, stamp)
-        ev = {"ev": "Tick", "n": n, "now": REC.q(stamp)}
+        # the spec's clock is relative to the start of the run: a run that starts at stamp t0 must behave
+        # like the same run started at 0, shifted (C02: "starts at t0", runs at t0 + k*p)
+        ev = {"ev": "Tick", "n": n, "now": REC.q(Fraction(stamp) - t0) if t0 else REC.q(stamp)}
         snap = _snapshot(self, prog, scale, fielded)
         if snap:
             ev["store"] = snap      # values of the program's shares at the tick boundary (program units)
